@@ -25,7 +25,9 @@ const (
 
 type jv struct {
 	k    kind
-	s    string // string value or number lexeme
+	s    string // DECODED string value, or number lexeme
+	raw  string // string values: the lexeme (text between the quotes, escapes as written)
+	lex  bool   // generator only: print `raw` as is
 	a    []*jv
 	keys []string
 	vals []*jv
@@ -136,11 +138,12 @@ func (p *jparser) value(depth int) (*jv, error) {
 			return nil, fmt.Errorf("comma expected at %d", p.i)
 		}
 	case c == '"':
+		st := p.i + 1
 		s, err := p.str()
 		if err != nil {
 			return nil, err
 		}
-		return &jv{k: kStr, s: s}, nil
+		return &jv{k: kStr, s: s, raw: p.s[st : p.i-1]}, nil
 	case strings.HasPrefix(p.s[p.i:], "true"):
 		p.i += 4
 		return &jv{k: kTrue}, nil
@@ -192,63 +195,102 @@ func hexv(c byte) int {
 	return -1
 }
 
-// str reads a string starting at the opening quote.
+// str reads a string starting at the opening quote and returns its DECODED value.
 func (p *jparser) str() (string, error) {
 	p.i++
-	var b strings.Builder
+	st := p.i
 	for p.i < len(p.s) {
-		c := p.s[p.i]
-		switch {
-		case c == '"':
+		switch p.s[p.i] {
+		case '"':
 			p.i++
-			return b.String(), nil
-		case c == '\\':
-			if p.i+1 >= len(p.s) {
-				return "", fmt.Errorf("eof in escape")
-			}
-			e := p.s[p.i+1]
+			return unescape(p.s[st : p.i-1]), nil
+		case '\\':
 			p.i += 2
-			switch e {
-			case '"', '\\', '/':
-				b.WriteByte(e)
-			case 'b':
-				b.WriteByte(8)
-			case 'f':
-				b.WriteByte(12)
-			case 'n':
-				b.WriteByte('\n')
-			case 'r':
-				b.WriteByte('\r')
-			case 't':
-				b.WriteByte('\t')
-			case 'u':
-				if p.i+4 > len(p.s) {
-					return "", fmt.Errorf("short \\u")
-				}
-				n := 0
-				for k := 0; k < 4; k++ {
-					h := hexv(p.s[p.i+k])
-					if h < 0 {
-						return "", fmt.Errorf("bad \\u")
-					}
-					n = n*16 + h
-				}
-				p.i += 4
-				if n >= 0xD800 && n <= 0xDFFF {
-					return "", fmt.Errorf("surrogate not supported")
-				}
-				var buf [4]byte
-				m := utf8.EncodeRune(buf[:], rune(n))
-				b.Write(buf[:m])
-			default:
-				return "", fmt.Errorf("bad escape \\%c", e)
-			}
 		default:
-			b.WriteByte(c)
 			p.i++
 		}
 	}
 	return "", fmt.Errorf("eof in string")
+}
+
+func hex4(s string) (int, bool) {
+	if len(s) < 4 {
+		return 0, false
+	}
+	n := 0
+	for k := 0; k < 4; k++ {
+		h := hexv(s[k])
+		if h < 0 {
+			return 0, false
+		}
+		n = n*16 + h
+	}
+	return n, true
+}
+
+// unescape decodes a JSON string lexeme (written independently of fastjson; same best-effort rules: a
+// surrogate escape not followed by another \u escape, a short / non-hex \u and unknown escapes stay as written).
+func unescape(s string) string {
+	if !strings.Contains(s, "\\") {
+		return s
+	}
+	var b strings.Builder
+	i := 0
+	for i < len(s) {
+		c := s[i]
+		if c != '\\' {
+			b.WriteByte(c)
+			i++
+			continue
+		}
+		if i+1 >= len(s) {
+			break
+		}
+		e := s[i+1]
+		i += 2
+		switch e {
+		case '"', '\\', '/':
+			b.WriteByte(e)
+		case 'b':
+			b.WriteByte(8)
+		case 'f':
+			b.WriteByte(12)
+		case 'n':
+			b.WriteByte('\n')
+		case 'r':
+			b.WriteByte('\r')
+		case 't':
+			b.WriteByte('\t')
+		case 'u':
+			x, ok := hex4(s[i:])
+			if !ok {
+				b.WriteString("\\u")
+				continue
+			}
+			xs := s[i : i+4]
+			i += 4
+			if x < 0xD800 || x >= 0xE000 {
+				b.WriteRune(rune(x))
+				continue
+			}
+			if i+1 < len(s) && s[i] == '\\' && s[i+1] == 'u' {
+				if y, ok2 := hex4(s[i+2:]); ok2 {
+					i += 6
+					if x < 0xDC00 && y >= 0xDC00 && y < 0xE000 {
+						b.WriteRune(rune(0x10000 + (x-0xD800)*0x400 + (y - 0xDC00)))
+					} else {
+						b.WriteRune(utf8.RuneError)
+					}
+					continue
+				}
+			}
+			b.WriteString("\\u" + xs)
+		default:
+			b.WriteByte('\\')
+			b.WriteByte(e)
+		}
+	}
+	return b.String()
 }
 
 func escStr(b *strings.Builder, s string) {
@@ -269,8 +311,10 @@ func escStr(b *strings.Builder, s string) {
 	b.WriteByte('"')
 }
 
-// canon prints compactly; string VALUES go through mapStr first (hash → pre-image marker).
-func canon(b *strings.Builder, v *jv, mapStr func(string) string) {
+// canon prints compactly; a string VALUE is printed as mapStr(decoded, lexeme) — a LEXEME, written between
+// the quotes as is (hash → pre-image marker lexeme, anything else → the lexeme the implementation printed);
+// names are printed decoded + canonically escaped.
+func canon(b *strings.Builder, v *jv, mapStr func(dec, lexeme string) string) {
 	switch v.k {
 	case kNull:
 		b.WriteString("null")
@@ -281,7 +325,9 @@ func canon(b *strings.Builder, v *jv, mapStr func(string) string) {
 	case kNum:
 		b.WriteString(v.s)
 	case kStr:
-		escStr(b, mapStr(v.s))
+		b.WriteByte('"')
+		b.WriteString(mapStr(v.s, v.raw))
+		b.WriteByte('"')
 	case kArr:
 		b.WriteByte('[')
 		for i, x := range v.a {
